@@ -6,6 +6,7 @@ import Driver.Trunc
 import Driver.TmplData
 import Driver.Retry
 import Driver.Gossip
+import Driver.Mesh
 -- engines of work area Limits: import your Driver.<Engine> modules above and list them here
 namespace Driver.Reg.Limits
 def engines : List (String × IO UInt32) := [
@@ -15,6 +16,7 @@ def engines : List (String × IO UInt32) := [
   ("trunc", Driver.runEngine Driver.Trunc.engine),
   ("tmpldata", Driver.runEngine Driver.TmplData.engine),
   ("retry", Driver.runEngine Driver.Retry.engine),
-  ("gossip", Driver.runEngine Driver.Gossip.engine)
+  ("gossip", Driver.runEngine Driver.Gossip.engine),
+  ("mesh", Driver.runEngine Driver.Mesh.engine)
 ]
 end Driver.Reg.Limits
